@@ -95,9 +95,7 @@ theorem genCellCorners_canon (cfg : Cfg) (x : Raw) (hc : Canon cfg x) : genCellC
 theorem genCellFaces_canon (cfg : Cfg) (x : Raw) (hc : Canon cfg x) : genCellFaces x = .ok x := by
   obtain ⟨idss, h1, h2, h3⟩ := hc.cf
   unfold genCellFaces
-  split
-  · rw [h1]; simp only []; rw [← h2, ← h3]
-  · rfl
+  rw [h1]; simp only []; rw [← h2, ← h3]
 
 /-- on canonical data `prepare` only sets the flag -/
 theorem prepare_canon (cfg : Cfg) (x : Raw) (hc : Canon cfg x) (h0 : x.prepared = false) :
@@ -171,7 +169,7 @@ theorem prepare_makes_canon (cfg : Cfg) (r p : Raw) (h0 : r.prepared = false) (h
   · obtain ⟨q, hq, hp⟩ := prepare_ok cfg r p h0 h
     obtain ⟨_, _, _, hqf, hqc, _⟩ := genCellFaces_fields _ _ hq
     have hs : (stages cfg r).cfElem = [] := by unfold stages; simp [c5, hcf]
-    obtain ⟨idss, hi, e1, e2⟩ := genCellFaces_regen _ _ hq hs
+    obtain ⟨idss, hi, e1, e2⟩ := genCellFaces_regen _ _ hq
     subst hp
     exact ⟨idss, by simpa [hqf, hqc] using hi, e1, e2⟩
 
